@@ -114,3 +114,21 @@ fn c16_oversized_welcome_leaves_no_group_sqlite() {
     assert!(b.get_groups().unwrap().is_empty());
     assert!(b.get_pending_welcomes(None).unwrap().is_empty());
 }
+
+/// C16-O6: same on the memory backend: the receiver's store accepts at most one relay per group; the invitation names two.
+#[test]
+fn c16_welcome_with_too_many_relays_leaves_no_group_memory() {
+    use mdk_memory_storage::{MdkMemoryStorage, ValidationLimits};
+    let (ak, a) = ident();
+    let bk = nostr::Keys::generate();
+    let b = MDK::new(MdkMemoryStorage::with_limits(ValidationLimits::new().with_max_relays_per_group(1)));
+    let r2 = nostr::RelayUrl::parse("ws://localhost:8081").unwrap();
+    let cfg = NostrGroupConfigData::new("g".into(), "d".into(), None, None, None, vec![relay(), r2], vec![ak.public_key()]);
+    let res = a.create_group(&ak.public_key(), vec![kp(&bk, &b)], cfg).unwrap();
+    let gid = res.group.mls_group_id.clone();
+    let r = b.process_welcome(&EventId::from_byte_array([5; 32]), &res.welcome_rumors[0]);
+    if r.is_ok() {
+        return;
+    }
+    assert!(b.get_group(&gid).unwrap().is_none(), "an invitation refused by the store (too many relays) left a group record behind: {:?}", r.err());
+}
